@@ -53,8 +53,10 @@ VARIABLES pid,     \* index of the program of the batch this behaviour executes
           delx,    \* some `del` of an unbound variable has raised in this execution
           hb,      \* cells that currently hold a value bound by an `except ... as name` clause
           crossed, \* an exception has crossed an activation boundary (raised by a callee into its caller)
-          oc       \* "outside the class": an exception raised by a call was caught by a handler of the caller
-vars == <<pid, ctrl, envs, cells, heap, log, dec, status, cur, how, rd, wr, steps, inp, xlog, xnode, xfirst, delx, hb, crossed, oc>>
+          oc,      \* "outside the class": an exception raised by a call was caught by a handler of the caller
+          lrd,     \* cells read by the last step only inside the body of a lambda value it called (a subset of rd)
+          lnode    \* ... and the statement that created that lambda (0 = the step called no lambda value)
+vars == <<pid, ctrl, envs, cells, heap, log, dec, status, cur, how, rd, wr, steps, inp, xlog, xnode, xfirst, delx, hb, crossed, oc, lrd, lnode>>
 
 P        == Progs[pid]
 ND(n)    == P.nodes[n]
@@ -74,6 +76,7 @@ Truthy(v) == CASE v[1] = "b" -> v[2] = 1
                [] v[1] = "i" -> v[2] # 0
                [] v[1] = "l" -> v[3] > 0
                [] v[1] = "r" -> v[2] > 0
+               [] v[1] = "c" -> v[2] > 0
                [] OTHER -> TRUE          \* tokens, closures, exception objects
 
 (* ---- static scoping (language reference 4.2.2): locals of a function ---- *)
@@ -100,18 +103,27 @@ CellOf(es, env, name) ==
 (* ch : the decisions offered to this node; the i-th consumed decision is    *)
 (* ch[i].  A D() accepts only 0/1 ("bad" otherwise) so that every distinct   *)
 (* execution is produced by exactly one ch.                                  *)
-RECURSIVE Eval(_, _, _)
+(* S.ov is the stack of bindings made by the expression itself (a lambda's parameter, a comprehension's   *)
+(* target): <<name, value>> pairs, innermost last.  They shadow every variable and live in no cell.        *)
+OvIdx(ov, nm) == LET idx == {j \in 1..Len(ov) : ov[j][1] = nm} IN
+                 IF idx = {} THEN 0 ELSE CHOOSE j \in idx : \A j2 \in idx : j >= j2
+LookC(S, env, nm) == IF OvIdx(S.ov, nm) # 0 THEN 0 ELSE CellOf(envs, env, nm)
+LookV(S, env, nm) == LET j == OvIdx(S.ov, nm) IN
+                     IF j # 0 THEN S.ov[j][2]
+                     ELSE LET c == CellOf(envs, env, nm) IN IF c = 0 THEN Unbound ELSE cells[c]
+
+RECURSIVE Eval(_, _, _), CompLoop(_, _, _, _, _, _)
 Eval(e, env, S) ==
   IF S.err # "" THEN [v |-> NoneV, s |-> S] ELSE
   LET x == EX(e) IN
   CASE x.kind \in {"T", "D", "I"} ->
-        LET cs   == [j \in 1..Len(x.reads) |-> CellOf(envs, env, x.reads[j])]
-            vals == [j \in 1..Len(x.reads) |-> IF cs[j] = 0 THEN Unbound ELSE cells[cs[j]]] IN
+        LET cs   == [j \in 1..Len(x.reads) |-> LookC(S, env, x.reads[j])]
+            vals == [j \in 1..Len(x.reads) |-> LookV(S, env, x.reads[j])] IN
         IF \E j \in 1..Len(vals) : vals[j] = Unbound
         THEN [v |-> NoneV, s |-> [S EXCEPT !.err = "NameError"]]
         ELSE
           LET lg == Append(S.log, <<x.kind, x.k, vals>>)
-              S1 == [S EXCEPT !.rd = @ \cup Range(cs), !.log = lg, !.ops = Append(@, <<"call", Len(S.log)>>)] IN
+              S1 == [S EXCEPT !.rd = @ \cup (Range(cs) \ {0}), !.log = lg, !.ops = Append(@, <<"call", Len(S.log)>>)] IN
           IF x.kind = "T" THEN [v |-> <<"t", x.k, Len(lg)>>, s |-> S1]
           ELSE IF S.di > Len(S.ch) THEN [v |-> NoneV, s |-> [S1 EXCEPT !.err = "ood"]]
           ELSE LET c == S.ch[S.di] IN
@@ -120,9 +132,9 @@ Eval(e, env, S) ==
                     ELSE [v |-> BoolV(c = 1), s |-> [S1 EXCEPT !.di = @ + 1, !.used = Append(@, c)]]
                ELSE [v |-> <<"l", Len(lg), c>>, s |-> [S1 EXCEPT !.di = @ + 1, !.used = Append(@, c)]]
     [] x.kind = "name" ->
-        LET c == CellOf(envs, env, x.name) IN
-        IF c = 0 \/ cells[c] = Unbound THEN [v |-> NoneV, s |-> [S EXCEPT !.err = "NameError"]]
-        ELSE [v |-> cells[c], s |-> [S EXCEPT !.rd = @ \cup {c}]]
+        LET c == LookC(S, env, x.name)  v == LookV(S, env, x.name) IN
+        IF v = Unbound THEN [v |-> NoneV, s |-> [S EXCEPT !.err = "NameError"]]
+        ELSE [v |-> v, s |-> [S EXCEPT !.rd = @ \cup ({c} \ {0})]]
     [] x.kind = "attr" ->        \* base.attr: the base is a variable, the object lives in the heap
         LET c == CellOf(envs, env, x.name) IN
         IF c = 0 \/ cells[c] = Unbound THEN [v |-> NoneV, s |-> [S EXCEPT !.err = "NameError"]]
@@ -175,8 +187,39 @@ Eval(e, env, S) ==
         IF r.s.err # "" THEN r
         ELSE LET s1 == [r.s EXCEPT !.ops = Append(@, <<"if_exp", Len(r.s.log)>>)] IN
              IF Truthy(r.v) THEN Eval(x.args[2], env, s1) ELSE Eval(x.args[3], env, s1)
+    \* (lambda name: BODY)(ARG) / (lambda: BODY)():  args = <<body>> or <<body, arg>>.  The argument is evaluated
+    \* first, then the call is made (one "call" event), then the body runs with the parameter bound.
+    [] x.kind = "lam" ->
+        LET ra == IF Len(x.args) = 2 THEN Eval(x.args[2], env, S) ELSE [v |-> NoneV, s |-> S] IN
+        IF ra.s.err # "" THEN ra ELSE
+        LET s1 == [ra.s EXCEPT !.ops = Append(@, <<"call", Len(ra.s.log)>>),
+                               !.ov = IF Len(x.args) = 2 THEN Append(@, <<x.name, ra.v>>) ELSE @]
+            rb == Eval(x.args[1], env, s1) IN
+        [v |-> rb.v, s |-> [rb.s EXCEPT !.ov = S.ov]]
+    \* lambda name: BODY  as a value: <<"m", e, env>> (the expression and the activation it closes over)
+    [] x.kind = "lamv" -> [v |-> <<"m", e, env>>, s |-> S]
+    \* [BODY for name in ITER]  /  [BODY for name in ITER if COND]:  args = <<iter, body>> or <<iter, body, cond>>
+    [] x.kind = "comp" ->
+        LET ri == Eval(x.args[1], env, S) IN
+        IF ri.s.err # "" THEN ri
+        ELSE IF ri.v[1] \notin {"l", "r"} THEN [v |-> NoneV, s |-> [ri.s EXCEPT !.err = "TypeError"]]
+        ELSE LET cnt == IF ri.v[1] = "l" THEN ri.v[3] ELSE ri.v[2]
+                 its == [j \in 1..cnt |-> IF ri.v[1] = "l" THEN <<"e", ri.v[2], j>> ELSE IntV(j - 1)] IN
+             CompLoop(x, env, ri.s, its, 1, 0)
 
-S0(ch) == [log |-> log, di |-> 1, ch |-> ch, err |-> "", used |-> <<>>, rd |-> {}, ops |-> <<>>, aux |-> NoneV]
+(* the elements its[j..] of a comprehension: bind the target, evaluate the condition (if any) and the element *)
+CompLoop(x, env, S, its, j, acc) ==
+  IF j > Len(its) THEN [v |-> <<"c", acc, 0>>, s |-> S]
+  ELSE LET s1 == [S EXCEPT !.ov = Append(@, <<x.name, its[j]>>)]
+           rc == IF Len(x.args) = 3 THEN Eval(x.args[3], env, s1) ELSE [v |-> BoolV(TRUE), s |-> s1] IN
+       IF rc.s.err # "" THEN rc
+       ELSE IF ~Truthy(rc.v) THEN CompLoop(x, env, [rc.s EXCEPT !.ov = S.ov], its, j + 1, acc)
+       ELSE LET rb == Eval(x.args[2], env, rc.s) IN
+            IF rb.s.err # "" THEN rb
+            ELSE CompLoop(x, env, [rb.s EXCEPT !.ov = S.ov], its, j + 1, acc + 1)
+
+S0X(ch, lg, ov, rd0) == [log |-> lg, di |-> 1, ch |-> ch, err |-> "", used |-> <<>>, rd |-> rd0, ops |-> <<>>, aux |-> NoneV, ov |-> ov]
+S0(ch) == S0X(ch, log, <<>>, {})
 \* the choices offered to node n: nch decision slots
 Choices(n) == [1..ND(n).nch -> 0..MaxTrip]
 \* a choice vector is canonical iff it was consumed legally and its unused tail is 0
@@ -249,14 +292,16 @@ ExcV(name) == <<"exc", <<"e", CASE name = "NameError" -> 1 [] name = "AttributeE
 Quiet == UNCHANGED <<envs, dec, log, cells, status>> /\ how' = "" /\ rd' = {} /\ wr' = {}
 
 (* evaluate expression e of node n under every canonical choice vector; K(r) continues *)
-WithEval(n, e, env, K(_)) ==
+\* general form: the effect log, the expression-level bindings and the cells already read when evaluation starts
+WithEvalX(n, e, env, lg, ov, rd0, K(_)) ==
   \E ch \in Choices(n) :
-    LET r == Eval(e, env, S0(ch)) IN
+    LET r == Eval(e, env, S0X(ch, lg, ov, rd0)) IN
     /\ Canon(r, ch)
     /\ dec' = dec \o r.s.used /\ rd' = r.s.rd
     /\ IF r.s.err # ""
        THEN Apply(Prop(ctrl, ExcV(r.s.err), r.s.log, cells)) /\ UNCHANGED envs
        ELSE K(r)
+WithEval(n, e, env, K(_)) == WithEvalX(n, e, env, log, <<>>, {}, K)
 
 (* ---- the top block is exhausted ------------------------------------------- *)
 Finish ==
@@ -299,6 +344,7 @@ Finish ==
         /\ Apply(Prop(ctrl, <<"ret", NoneV>>, log, cells)) /\ cur' = 0 /\ UNCHANGED <<envs, dec>> /\ rd' = {}
     [] OTHER -> ctrl' = rest /\ cur' = 0 /\ Quiet
 
+DefLog(d, lg) == IF d.k # 0 THEN Append(lg, <<"DEC", d.k, <<>>>>) ELSE lg
 TripBudget == [j \in 1..MaxTrip |-> NoneV]
 
 NCalls(c) == Cardinality({i \in 1..Len(c) : c[i].k = "call"})
@@ -360,10 +406,15 @@ Exec(n) ==
       [] d.kind = "return" ->
           WithEval(n, d.e, env, LAMBDA r :
              Apply(Prop(ctrl, <<"ret", r.v>>, r.s.log, cells)) /\ UNCHANGED envs)
-      [] d.kind = "def" ->
-          LET c == CellOf(envs, env, d.name) IN
-          /\ ctrl' = c1 /\ UNCHANGED <<envs, dec, log, status>> /\ how' = "" /\ rd' = {} /\ wr' = {c}
-          /\ cells' = SetCell(cells, c, <<"f", d.f, env>>)
+      [] d.kind = "def" ->      \* @DEC(k) (k # 0) is evaluated first, then the default value (e # 0), then the name is bound
+          LET c == CellOf(envs, env, d.name)
+              lg0 == DefLog(d, log) IN
+          IF d.e = 0
+          THEN /\ ctrl' = c1 /\ UNCHANGED <<envs, dec, status>> /\ log' = lg0 /\ how' = "" /\ rd' = {} /\ wr' = {c}
+               /\ cells' = SetCell(cells, c, <<"f", d.f, env>>)
+          ELSE WithEvalX(n, d.e, env, lg0, <<>>, {}, LAMBDA r :
+                 /\ ctrl' = c1 /\ log' = r.s.log /\ UNCHANGED <<envs, status>> /\ how' = "" /\ wr' = {c}
+                 /\ cells' = SetCell(cells, c, <<"f", d.f, env>>))
       [] d.kind = "del" ->
           LET c == CellOf(envs, env, d.tgt[1]) IN
           /\ UNCHANGED <<envs, dec>> /\ rd' = {}
@@ -376,9 +427,18 @@ Exec(n) ==
               acs == [j \in 1..Len(d.args) |-> CellOf(envs, env, d.args[j])]
               fv == IF fc = 0 THEN Unbound ELSE cells[fc]
               avs == [j \in 1..Len(d.args) |-> IF acs[j] = 0 THEN Unbound ELSE cells[acs[j]]] IN
-          /\ UNCHANGED <<dec>>
           /\ IF fv = Unbound \/ \E j \in 1..Len(avs) : avs[j] = Unbound
-             THEN Apply(Prop(ctrl, ExcV("NameError"), log, cells)) /\ UNCHANGED envs /\ rd' = {}
+             THEN Apply(Prop(ctrl, ExcV("NameError"), log, cells)) /\ UNCHANGED <<envs, dec>> /\ rd' = {}
+             ELSE IF fv[1] = "m"      \* a lambda value: its body is an expression, evaluated in the activation it closes over
+             THEN LET lx == EX(fv[2]) IN
+                  /\ Len(d.args) = (IF lx.name = "" THEN 0 ELSE 1)      \* generator guarantees; otherwise not judged
+                  /\ WithEvalX(n, lx.args[1], fv[3], log, IF lx.name = "" THEN <<>> ELSE << <<lx.name, avs[1]>> >>,
+                               {fc} \cup Range(acs), LAMBDA r :
+                        IF d.form = "return" THEN Apply(Prop(ctrl, <<"ret", r.v>>, r.s.log, cells)) /\ UNCHANGED envs
+                        ELSE /\ ctrl' = c1 /\ log' = r.s.log /\ UNCHANGED <<envs, status>> /\ how' = ""
+                             /\ IF d.form = "assign"
+                                THEN LET tc == CellOf(envs, env, d.tgt[1]) IN cells' = SetCell(cells, tc, r.v) /\ wr' = {tc}
+                                ELSE UNCHANGED cells /\ wr' = {})
              ELSE
                LET g == fv[2]
                    loc == LocalsOf(g)
@@ -392,6 +452,7 @@ Exec(n) ==
                    newcells == cells \o [i \in 1..Cardinality(loc) |->
                                   IF ord[i] \in Range(FN(g).params) THEN avs[pidx(ord[i])] ELSE Unbound] IN
                /\ fv[1] = "f" /\ Len(FN(g).params) = Len(d.args)     \* generator guarantees; otherwise not judged
+               /\ UNCHANGED dec
                /\ NCalls(ctrl) < MaxDepth
                /\ envs' = Append(envs, newenv)
                /\ cells' = newcells
@@ -414,6 +475,13 @@ Step ==
                       r == Eval(ND(n0).e, f0.env, S0(ch)) IN
                   [heap EXCEPT ![r.s.aux[2]][ND(n0).attr] = r.v]
              ELSE heap
+  /\ LET f0 == Top
+         n0 == IF f0.i <= Len(f0.blk) THEN f0.blk[f0.i] ELSE 0
+         fc == IF n0 # 0 /\ ND(n0).kind = "call" THEN CellOf(envs, f0.env, ND(n0).name) ELSE 0
+         acs == IF fc = 0 THEN {} ELSE {CellOf(envs, f0.env, ND(n0).args[j]) : j \in 1..Len(ND(n0).args)}
+         isLam == fc # 0 /\ cells[fc] # Unbound /\ cells[fc][1] = "m" /\ \A c \in acs : c # 0 /\ cells[c] # Unbound IN
+     /\ lrd' = IF isLam THEN rd' \ ({fc} \cup acs) ELSE {}
+     /\ lnode' = IF isLam THEN (CHOOSE m \in 1..Len(P.nodes) : ND(m).e = cells[fc][2]) ELSE 0
   /\ LET resumed == Top.i > Len(Top.blk) /\ Top.k = "finally"      \* a finally block re-raising its pending exception
          cr == crossed \/ (how' = "exc" /\ NCalls(ctrl') < NCalls(ctrl) /\ status'[1] = "run") IN
      /\ xlog' = IF how' = "exc" /\ ~resumed THEN Len(log') ELSE xlog
@@ -441,6 +509,7 @@ Init ==
   /\ ctrl = << Frame("call", FN(1).body, 0, 1) >>
   /\ log = <<>> /\ dec = <<>> /\ status = <<"run", NoneV>> /\ cur = 0 /\ steps = 0 /\ how = ""
   /\ rd = {} /\ wr = {} /\ xlog = 0 /\ xnode = 0 /\ xfirst = 0 /\ delx = FALSE /\ hb = {} /\ crossed = FALSE /\ oc = FALSE
+  /\ lrd = {} /\ lnode = 0
 
 Spec == Init /\ [][Step]_vars
 DecBound == Len(dec) <= MaxDec      \* CONSTRAINT: executions consuming more decisions are not explored further
